@@ -26,7 +26,10 @@ CHECKS = {
               "rflags bits a handler depends on are within rflags_read; all 256 shift counts are evaluated for flag neutrality of a "
               "masked-zero count; ZF/SF/PF of every setter for all 256 result bytes x upper-bit classes; the value handed to the setter is "
               "the value written (CMP/TEST: congruent to d-s / d&s); MUL/IMUL CF=OF per class of the 2N-bit product (all-equal top bits "
-              "and every single-bit deviation). Not decided: CF/OF/AF values of additions and subtractions."),
+              "and every single-bit deviation). CF/OF of the additive instructions (ADD ADC SUB SBB CMP NEG INC DEC, 88 forms) are evaluated with the "
+              "operands fixed at the points where carries and signed overflows begin and end (0, 1, max, min, -1; both carry-ins) "
+              "and compared with the architectural definition: exhaustive for the classes the architecture distinguishes, not for an "
+              "implementation that goes wrong strictly inside a class. Not decided: AF, and CF/OF strictly inside a class."),
         technique=AI + " composed with flag-setter summaries; per-class evaluation of the handlers' product tests; oracle: iced-x86 rflags tables"),
     "C03": dict(category="other", design_ref="§5 C03",
         text=("Every implemented, decoder-producible Jcc handler is interpreted under all 64 CF/PF/AF/ZF/SF/OF classes and must store "
